@@ -21,6 +21,7 @@ CLAUSE = "FileEnd:rewrite-introduced-an-unresolved-name"
 def run(chk: Check) -> None:
     vectors = progspace.enumerate_vectors(chk, with_args=True)
     scenarios = progspace.build_batches(chk, with_extra=True, vectors=vectors, seeds_per_codemod=chk.pick(3, 8), vectors_per_seed=chk.pick(8, 50))
+    scenarios += progspace.build_line_filter_batches(chk, multi_statement_only=chk.quick)
     scenarios += progspace.build_sast(chk, max_per_codemod=chk.pick(1, 4))
     results, verdicts = progspace.run_batches(chk, scenarios)
     c01.judge(chk, scenarios, results, verdicts, CLAUSE, "C02", "a name is unresolved only after the rewrite")
